@@ -59,6 +59,12 @@ STRAYS = {'README.md': '# my budget\n', '{R}README.md': 'inner readme\n', '{R}co
 BAK_OLD = 'Pattern,Merchant,Category,Subcategory\nOLDSTORE,Old Store,Shopping,Misc\n'
 
 
+# settings may name the rules file freely: the user's rules then live under that name
+CUSTOM_RULES_NAMES = {'custom': 'config/my.rules', 'custom-dir': 'rules/household.rules', 'custom-txt': 'config/my-merchants.txt',
+                      'custom-missing': 'config/not-there.rules'}
+MY_RULES = '# hand-written\n[Rent]\nmatch: contains("RENT")\ncategory: Housing\nsubcategory: Rent\n'
+
+
 def settings_text(sources=True, mkey=None, vkey=False, outdir=None, html=None, extra=''):
     t = 'year: 2025\ntitle: "Budget"\n'
     if sources:
@@ -74,6 +80,8 @@ def settings_text(sources=True, mkey=None, vkey=False, outdir=None, html=None, e
         t += '# merchants_file: config/merchants.rules\n'
     elif mkey == 'empty':
         t += 'merchants_file: ""\n'
+    elif mkey in CUSTOM_RULES_NAMES:
+        t += f'merchants_file: {CUSTOM_RULES_NAMES[mkey]}\n'
     if vkey:
         t += 'views_file: config/views.rules\n'
     return t + extra
@@ -95,15 +103,18 @@ def gen_budget(rnd, force=None):
     if root is None:
         if pick('stray', [False, True]):
             files['data/bank.csv'] = DATA_ROWS
-        return {'files': files, 'dirs': dirs, 'feat': f}
+        return {'files': files, 'dirs': dirs, 'links': {}, 'feat': f}
     dirs.append(root + 'config')
     st = pick('settings', ['full', 'full', 'full', 'full', 'nosources', 'absent'])
     if st != 'absent':
         files[root + 'config/settings.yaml'] = settings_text(
-            sources=(st == 'full'), mkey=pick('mkey', [None, None, 'rules', 'rules', 'commented', 'empty']),
+            sources=(st == 'full'), mkey=pick('mkey', [None, None, None, 'rules', 'rules', 'rules', 'commented', 'empty', 'custom',
+                                                      'custom-dir', 'custom-txt', 'custom-missing']),
             vkey=pick('vkey', [False, True]), outdir=pick('outdir', [None, None, 'output', 'reports']),
             html=pick('html', [None, None, 'report.html']),
             extra=pick('settings_tail', ['', '', '# trailing comment without newline']))
+    if f.get('mkey') in CUSTOM_RULES_NAMES and f.get('mkey') != 'custom-missing' and st != 'absent':
+        files[root + CUSTOM_RULES_NAMES[f['mkey']]] = MY_RULES
     rv = pick('rules', [False, False, False, True, True, True, 'transforms', 'syntaxerr', 'empty', 'comments'])
     if rv:
         files[root + 'config/merchants.rules'] = RULES_VARIANTS[rv]
@@ -134,9 +145,15 @@ def gen_budget(rnd, force=None):
     elif od == 'old':
         files[root + outname + '/' + (f.get('html') or 'spending_summary.html')] = '<html>OLD REPORT</html>\n'
         files[root + outname + '/keep.txt'] = 'keep me\n'
+    links = {}
+    ob = pick('out_obstacle', [None] * 8 + ['file', 'dangling']) if od is None else None
+    if ob == 'file':
+        files[root + outname] = 'not a directory\n'
+    elif ob == 'dangling':
+        links[root + outname] = '/mnt/usb-drive-not-mounted/reports'
     if pick('exports', [False, True]):
         dirs.append('exports')
-    return {'files': files, 'dirs': dirs, 'feat': f}
+    return {'files': files, 'dirs': dirs, 'links': links, 'feat': f}
 
 
 INVOCATIONS = [None, None, None, 'abs', 'abs/', 'rel', 'rel/', './rel', './rel/', 'dot-in-config', 'parent-rel/', 'parent-rel',
@@ -299,6 +316,28 @@ def directed_cases():
                              {'k': 'up', 'migrate': False, 'embedded': True, 'fmt': 'html', 'out': None}]
                             if mkey is None else
                             [{'k': 'init', 'target': '.', 'spell': 'abs/'} if layout == 'old' else {'k': 'init', 'target': None}]))
+    # ---- the rules file named by settings is the user's: neither init nor a migration may write to it ----
+    for layout in ('old', 'new'):
+        for mk in ('custom', 'custom-dir', 'custom-txt', 'custom-missing'):
+            out.append(({'layout': layout, 'settings': 'full', 'data': 'rows', 'mkey': mk, 'rules': False, 'csv': 'rules',
+                         'bak': False, 'views': False, 'strays': 0, 'out_obstacle': None},
+                        [{'k': 'init', 'target': None}] if mk != 'custom' else
+                        [{'k': 'init', 'target': '.', 'spell': 'abs'} if layout == 'old' else {'k': 'init', 'target': None},
+                         {'k': 'up', 'migrate': True, 'embedded': True, 'fmt': 'html', 'out': None}]))
+        out.append(({'layout': layout, 'settings': 'full', 'data': 'rows', 'mkey': 'custom', 'rules': True, 'csv': 'rules',
+                     'bak': True, 'views': True, 'out_obstacle': None},
+                    [{'k': 'up', 'migrate': True, 'embedded': True, 'fmt': 'html', 'out': None}, {'k': 'init', 'target': None}]))
+    # ---- the output location cannot be created (a file / a dangling symlink sits there): nothing may be written elsewhere ----
+    for layout in ('old', 'new'):
+        cfg = ('tally/' if layout == 'new' else '') + 'config'
+        for ob in ('file', 'dangling'):
+            for outdir in (None, 'reports'):
+                up = lambda emb, inv=None: dict({'k': 'up', 'migrate': False, 'embedded': emb, 'fmt': 'html', 'out': None},
+                                                **({'inv': inv, 'cfgrel': cfg} if inv else {}))
+                out.append(({'layout': layout, 'settings': 'full', 'data': 'rows', 'mkey': 'rules', 'rules': True, 'csv': None,
+                             'views': False, 'existing_out': None, 'out_obstacle': ob, 'outdir': outdir, 'html': None, 'strays': 1},
+                            [up(True, 'parent-rel'), up(False), {'k': 'discover', 'args': []}]
+                            if outdir is None else [up(False, 'abs/')]))
     # ---- init keeps every pre-existing file byte-identical: .gitignore of every style, READMEs, stray files ----
     for layout in ('old', 'new'):
         for gv in (True, 'own-style', 'repo', 'partial', 'tally', 'no-newline', 'empty'):
@@ -346,12 +385,12 @@ def gen_cases(seed, n_random, exhaustive=False):
     cases = []
     for force, cmds in directed_cases() + (exhaustive_small() if exhaustive else []):
         b = gen_budget(rnd, force)
-        cases.append({'files': b['files'], 'dirs': b['dirs'], 'feat': b['feat'], 'specs': cmds})
+        cases.append({'files': b['files'], 'dirs': b['dirs'], 'links': b.get('links', {}), 'feat': b['feat'], 'specs': cmds})
     for _ in range(n_random):
         b = gen_budget(rnd)
         root = {'old': '', 'new': 'tally/', 'none': None}[b['feat']['layout']]
         k = rnd.choice([1, 2, 2, 3, 3, 4])
-        cases.append({'files': b['files'], 'dirs': b['dirs'], 'feat': b['feat'],
+        cases.append({'files': b['files'], 'dirs': b['dirs'], 'links': b.get('links', {}), 'feat': b['feat'],
                       'specs': [gen_cmd(rnd, root) for _ in range(k)]})
     for c in cases:
         c['cmds'] = [cmd_entry(s) for s in c['specs']]
@@ -361,7 +400,8 @@ def gen_cases(seed, n_random, exhaustive=False):
 
 def run_cases_impl(cases, keep=False, work=WORKDIR):
     payload = {'work': work, 'jobs': 4, 'keep': keep,
-               'cases': [{'files': c['files'], 'dirs': c['dirs'], 'cmds': c['cmds'], 'extra_roots': c.get('extra_roots', [])}
+               'cases': [{'files': c['files'], 'dirs': c['dirs'], 'links': c.get('links', {}), 'cmds': c['cmds'],
+                          'extra_roots': c.get('extra_roots', [])}
                          for c in cases]}
     return run_impl(IMPL, payload, timeout=3000)['results']
 
@@ -638,6 +678,7 @@ def shrink(case, step_index, signature, budget=18):
     cur = {'files': dict(case['files']), 'dirs': list(case['dirs']), 'specs': list(case['specs'][:step_index + 1])}
 
     def norm(c):
+        c.setdefault('links', dict(case.get('links') or {}))
         c['cmds'] = [cmd_entry(s) for s in c['specs']]
         c['extra_roots'] = sorted({s['target'] + '/' for s in c['specs'] if s['k'] == 'init' and s.get('target') not in (None, '.')})
         return c
@@ -741,7 +782,7 @@ def main(tier):
         broken.append({'kind': 'hygiene', 'detail': res['hygiene']})
 
     # ---- dynamic tie ----
-    n_random = 90 if tier == 'quick' else 600
+    n_random = 60 if tier == 'quick' else 600
     shutil.rmtree(os.path.join(WORK, 'C20', 'run'), ignore_errors=True)
     starters = calibrate_starters()
     cases = gen_cases(run.seed, n_random, exhaustive=(tier == 'thorough'))
@@ -790,7 +831,7 @@ def main(tier):
         occ = viol[s]
         ci, si, d = min(occ, key=lambda x: (x[1], len(cases[x[0]]['files'])))
         small, trials = shrink(cases[ci], si, s, budget=18 if tier == 'quick' else 60)
-        run.violation('write', {'kind': 'counterexample', 'case': {k: small[k] for k in ('files', 'dirs', 'specs', 'cmds')},
+        run.violation('write', {'kind': 'counterexample', 'case': {k: small.get(k) for k in ('files', 'dirs', 'links', 'specs', 'cmds')},
                                 'failing_step': len(small['specs']) - 1, 'detail': d, 'n_occurrences': len(occ),
                                 'all_signatures_of_this_command': {x: len(viol[x]) for x in sigs},
                                 'expected': 'C20: only report files in the output location are written; user files keep their bytes '
